@@ -55,6 +55,7 @@ RULES = {
           "`from_str(\"lit\") == Ok(V)` is generated per arm",
     "E8": "monomorphisation: a generic parameter (`mono T=i128`) or `Self` (`selftype i128`) is replaced textually by the "
           "concrete type named in the directive; the generic bound list is dropped",
+    "E19": "format!(..) (error-message text only) -> \"\"; the TemporalError stand-in keeps the kind and drops the message",
     "E18": "compiled-data wrappers: `TZ_PROVIDER.lock().map_err(..)?` -> `acquire()?`, `&*provider` -> `provider.get()`; every type is an "
            "opaque stand-in; every core method is external_body with its own uninterpreted spec function",
     "E17": "deadtail: the part of a body after the ISO-calendar early return (calls into icu_calendar) is replaced by "
@@ -409,6 +410,15 @@ def rewrite_macros(text):
             else:
                 out = out[:m.start()] + "assert(%s)" % args[0] + out[cl + 1:]
             applied.add("E4")
+    # E19: format!(..) only builds error-message text (TemporalError's stand-in drops the message)
+    while True:
+        masked = mask_source(out)
+        m = re.search(r"(?<![A-Za-z0-9_:])format!\s*\(", masked)
+        if not m:
+            break
+        cl = match_brace(masked, m.end() - 1)
+        out = out[:m.start()] + '""' + out[cl + 1:]
+        applied.add("E19")
     # E16: destructuring assignment `(a, b) = e;` -> `let t = e; a = t.0; b = t.1;`
     cnt = [0]
     def _destr(m):
